@@ -712,26 +712,65 @@ def _float_into(e, name, follow, l):
     `let name = quote!(..); <follow>` at the end of every branch; None if E has another shape"""
     while isinstance(e, dict) and e.get('k') == 'Block' and len(e.get('stmts', [])) == 1 and e['stmts'][0].get('k') == 'Expr' and not e['stmts'][0].get('semi'):
         e = e['stmts'][0]['expr']
-    if not (isinstance(e, dict) and e.get('k') == 'If' and e.get('else') is not None):
+    if not (isinstance(e, dict) and ((e.get('k') == 'If' and e.get('else') is not None) or (e.get('k') == 'Match' and e.get('arms')))):
         return None
 
     def branch(b):
+        if b.get('k') not in ('Block', 'If', 'Match'):
+            # an arm whose value is the bare `quote!(..)`
+            b = {'k': 'Block', 'l': l, 'stmts': [{'k': 'Expr', 'expr': b, 'semi': False, 'l': l}]}
+        if b.get('k') == 'Match':
+            r = _float_into(b, name, follow, l)
+            return None if r is None else {'k': 'Block', 'l': l, 'stmts': [{'k': 'Expr', 'expr': r, 'semi': False, 'l': l}]}
         if b.get('k') == 'If':
             r = _float_into(b, name, follow, l)
             return None if r is None else {'k': 'Block', 'l': l, 'stmts': [{'k': 'Expr', 'expr': r, 'semi': False, 'l': l}]}
         if b.get('k') != 'Block' or not b.get('stmts') or b['stmts'][-1].get('k') != 'Expr' or b['stmts'][-1].get('semi'):
             return None
         tail = b['stmts'][-1]['expr']
-        if tail.get('k') == 'If' or (tail.get('k') == 'Block'):
+        if tail.get('k') in ('If', 'Match') or (tail.get('k') == 'Block'):
             r = _float_into(tail, name, follow, l)
             if r is None:
                 return None
             return {'k': 'Block', 'l': b.get('l', l), 'stmts': b['stmts'][:-1] + [{'k': 'Expr', 'expr': r, 'semi': False, 'l': l}]}
+        if isinstance(name, dict):
+            # `let (a, b) = match .. { .. => (X, Y) }`: every branch ends in a tuple of streams (templates, stream variables, empty streams)
+            def _stream(x_):
+                return _is_quote(x_) or (x_.get('k') == 'Path' and len(x_['path'].get('segs', [])) == 1) \
+                    or (x_.get('k') == 'Call' and x_['func'].get('k') == 'Path' and x_['func']['path']['s'].split('::')[-2:] == ['TokenStream', 'new'] and not x_['args'])
+            if tail.get('k') != 'Tuple' or len(tail['elems']) != len(name['elems']) or not all(_stream(x_) for x_ in tail['elems']):
+                return None
+            names_ = [q_['name'] for q_ in name['elems']]
+            sequential = all(not (_count_uses(tail['elems'][j_], names_[i_]) + _hole_uses(tail['elems'][j_], names_[i_]))
+                             for i_ in range(len(names_)) for j_ in range(i_ + 1, len(names_)))
+            if sequential:
+                # one `let` per component (a later component does not mention an earlier name, so the shadowing is harmless); a
+                # component that is just the variable of the same name needs no `let` at all
+                lets = []
+                for q_, x_ in zip(name['elems'], tail['elems']):
+                    if x_.get('k') == 'Path' and x_['path']['s'] == q_['name']:
+                        continue
+                    lets.append({'k': 'Local', 'l': l, 'attrs': [], 'else': None, 'ty': None, 'init': x_, 'pat': copy.deepcopy(q_)})
+                return {'k': 'Block', 'l': b.get('l', l), 'stmts': b['stmts'][:-1] + lets + [copy.deepcopy(follow)]}
+            let = {'k': 'Local', 'l': l, 'attrs': [], 'else': None, 'ty': None, 'init': tail, 'pat': copy.deepcopy(name)}
+            return {'k': 'Block', 'l': b.get('l', l), 'stmts': b['stmts'][:-1] + [let, copy.deepcopy(follow)]}
         if not _is_quote(tail):
             return None
         let = {'k': 'Local', 'l': l, 'attrs': [], 'else': None, 'ty': None, 'init': tail,
                'pat': {'k': 'Ident', 'name': name, 'by_ref': False, 'mut': False, 'sub': None, 'l': l}}
         return {'k': 'Block', 'l': b.get('l', l), 'stmts': b['stmts'][:-1] + [let, copy.deepcopy(follow)]}
+    if e.get('k') == 'Match':
+        arms = []
+        for a_ in e['arms']:
+            if a_.get('guard') is not None:
+                return None
+            b_ = branch(a_['body'])
+            if b_ is None:
+                return None
+            arms.append(dict(a_, body=b_))
+        out = dict(e, arms=arms)
+        out['floated'] = name
+        return out
     t, el = branch(e['then']), branch(e['else'])
     if t is None or el is None:
         return None
@@ -755,16 +794,64 @@ def float_conditional_streams(crate):
                 changed = False
                 st = x['stmts']
                 for i in range(len(st) - 1):
-                    a, b = st[i], st[i + 1]
+                    a = st[i]
                     if a.get('k') != 'Local' or a.get('else') is not None or not isinstance(a.get('init'), dict) or a.get('attrs'):
                         continue
                     p = a['pat']
                     while p.get('k') == 'Type':
                         p = p['pat']
-                    if p.get('k') != 'Ident' or p.get('mut') or p.get('by_ref'):
+                    tuple_pat = None
+                    if p.get('k') == 'Tuple' and p.get('elems') and all(q_.get('k') == 'Ident' and not q_.get('mut') and not q_.get('by_ref') and not q_.get('sub') for q_ in p['elems']) \
+                            and a['init'].get('k') == 'Match':
+                        tuple_pat = p
+                    elif p.get('k') != 'Ident' or p.get('mut') or p.get('by_ref'):
                         continue
+                    if tuple_pat is not None:
+                        names_ = [q_['name'] for q_ in p['elems']]
+                        b = st[i + 1] if i + 1 < len(st) else None
+                        if b is None or b.get('k') != 'Expr' or not all((_count_uses(b, n_) + _hole_uses(b, n_)) for n_ in names_) \
+                                or any((_count_uses(st[i + 2:], n_) + _hole_uses(st[i + 2:], n_)) for n_ in names_):
+                            continue
+                        r = _float_into(a['init'], tuple_pat, b, a.get('l', 0))
+                        if r is None:
+                            continue
+                        x['stmts'] = st[:i] + [{'k': 'Expr', 'expr': r, 'semi': True, 'l': a.get('l', 0)}] + st[i + 2:]
+                        n += 1
+                        changed = True
+                        break
                     name = p['name']
-                    if b.get('k') != 'Expr' or not (_count_uses(b, name) + _hole_uses(b, name)) or (_count_uses(st[i + 2:], name) + _hole_uses(st[i + 2:], name)):
+                    # the consumer is the next statement, or follows after `let`s that do not mention the stream (then the conditional
+                    # stream must be free of effects: a test of values and `quote!`s only, so that it may be computed later)
+                    j = i + 1
+                    def _skippable(s_):
+                        if _count_uses(s_, name) + _hole_uses(s_, name):
+                            return False
+                        if s_.get('k') == 'Local':
+                            return True
+                        # a statement that only appends templates to streams (also under a test of values) does not change anything the
+                        # conditional stream reads
+                        if s_.get('k') != 'Expr':
+                            return False
+                        for y in walk_json(s_):
+                            if isinstance(y, dict) and (y.get('k') in ('Call', 'Try', 'Return', 'Assign', 'Break', 'Continue', 'For', 'While', 'Loop', 'Match')
+                                                        or (y.get('k') == 'MethodCall' and y.get('method') not in ('extend', 'is_none', 'is_some', 'is_empty'))
+                                                        or (y.get('k') == 'Macro' and isinstance(y.get('mac'), dict) and y['mac'].get('name', '').split('::')[-1] not in ('quote', 'quote_spanned'))):
+                                return False
+                        return True
+                    while j < len(st) and _skippable(st[j]):
+                        j += 1
+                    if j >= len(st):
+                        continue
+                    if j > i + 1:
+                        eff = []
+                        for y in walk_json(a['init']):
+                            if isinstance(y, dict) and (y.get('k') in ('Call', 'Try', 'Return', 'Assign') or (y.get('k') == 'MethodCall' and y.get('method') not in ('is_none', 'is_some', 'is_empty'))
+                                                        or (y.get('k') == 'Macro' and isinstance(y.get('mac'), dict) and y['mac'].get('name', '').split('::')[-1] not in ('quote', 'quote_spanned'))):
+                                eff.append(1)
+                        if eff:
+                            continue
+                    b = st[j]
+                    if b.get('k') != 'Expr' or not (_count_uses(b, name) + _hole_uses(b, name)) or (_count_uses(st[j + 1:], name) + _hole_uses(st[j + 1:], name)):
                         continue
                     # prefix lets of an inlined block stay in front
                     e = a['init']
@@ -776,7 +863,7 @@ def float_conditional_streams(crate):
                     r = _float_into(e, name, b, a.get('l', 0))
                     if r is None:
                         continue
-                    x['stmts'] = st[:i] + prefix + [{'k': 'Expr', 'expr': r, 'semi': True, 'l': a.get('l', 0)}] + st[i + 2:]
+                    x['stmts'] = st[:i] + prefix + st[i + 1:j] + [{'k': 'Expr', 'expr': r, 'semi': True, 'l': a.get('l', 0)}] + st[j + 1:]
                     n += 1
                     changed = True
                     break
